@@ -529,7 +529,6 @@ func runPipeline(data []byte) []stageOut {
 	step("verify-unsigned", func(e *gobl.Envelope) error { return e.Verify(c14key.Public()) })
 	step("sign", func(e *gobl.Envelope) error { return e.Sign(c14key) })
 	step("verify", func(e *gobl.Envelope) error { return e.Verify(c14key.Public()) })
-	step("validate-signed", func(e *gobl.Envelope) error { return e.Validate() })
 	return outs
 }
 
